@@ -65,9 +65,15 @@ def rules_of(fx, rep, pid, rules, rule_id, why, tier='quick'):
 # ---- layering: a property whose behaviour passes through another layer of the library depends on that layer's structural clauses.
 # (importing property) -> [(exporting property, rules (set or id prefix), rule id here, why the dependence is real)]
 LAYERS = {
+    'C01': [('C19', {'R19.9'}, 'R01.9', 'the receive path hands `buffer[read cursor..]` to ReadHalf::read and advances the cursor by the count it gets back: frames are recovered for every '
+             'partition only if the transport delivers the socket\'s bytes in order, once, and keeps none of them to itself')],
+    'C07': [('C19', {'R19.9'}, 'R07.6', 'cancel-safety of a receive is argued for the connection\'s own cursors: bytes a transport has taken from the socket into a buffer or a local of its read '
+             'future are lost (or re-ordered) when the receive is dropped')],
     'C02': [('C19', {'R19.2'}, 'R02.10', 'a flush hands &buffer[..pos] to WriteHalf::write once: exactly those bytes reach the peer only if the transport writes every byte '
              'of the slice exactly once (a fast path that ignores a partial count truncates a frame and glues it to the next)')],
-    'C06': [('C02', 'R02.', 'R06.9', 'the calls of a chain are put on the wire by WriteConnection::enqueue, one document and one NUL each, and by one flush: a chain that dies in '
+    'C06': [('C05', {'R05.9'}, 'R06.10', 'the chain counts a reply as owed exactly when `call.oneway()` is false, and the wire carries the flag from the field: an accessor that answers '
+             'something else than the stored flag makes the count disagree with what the peer was told'),
+            ('C02', 'R02.', 'R06.9', 'the calls of a chain are put on the wire by WriteConnection::enqueue, one document and one NUL each, and by one flush: a chain that dies in '
              'enqueue (a terminator stored past the buffer end) or leaves calls queued has sent other calls than its accounting says'),
             ('C19', {'R19.2'}, 'R06.7', 'the calls of a chain reach the peer through one WriteHalf::write of the whole batch: a transport that re-sends a prefix after a partial '
              'write makes the peer see other calls than were enqueued, and the replies no longer match the chain\'s accounting')],
@@ -78,16 +84,18 @@ LAYERS = {
     'C15': [('C12', {'R12.1b'}, 'R15.8', 'the renames the code generator writes as `#[zlink(rename = ..)]` reach the wire only if every proxy generator still sees them: a generator that strips '
              'the attributes from the shared signature leaves its successors with the Rust spelling'),
             ('C03', {'E1', 'E2', 'E2b', 'E3', 'E4', 'E5'}, 'R15.6', 'the values generated code sends are encoded by the built-in serializer: declared strings / numbers / keys must arrive as such')],
-    'C17': [('C03', {'E6'}, 'R17.6', 'the only signal that makes the write buffer grow is BufferTooSmall from the slice writer: raised early (an over-estimate) it grows the buffer '
+    'C17': [('C19', {'R19.9'}, 'R17.7', 'the limit bounds the connection\'s buffer: a transport with a read-ahead buffer of its own can drain an unterminated stream into memory the limit never sees'),
+            ('C03', {'E6'}, 'R17.6', 'the only signal that makes the write buffer grow is BufferTooSmall from the slice writer: raised early (an over-estimate) it grows the buffer '
              'past what the message needs and refuses messages below the limit')],
     'C04': [('C01', 'R01.', 'R04.6', 'a reply is classified from the bytes handed to the decoder: only if these are exactly one frame is an error frame seen as an error frame'),
             ('C07', {'R07.1', 'R07.2', 'R07.3'}, 'R04.7', 'a receive_reply abandoned by a timeout / select and retried must decode the whole frame: with read progress held in the '
              'abandoned future the retry decodes a fragment, and a declared error comes back as a decode failure instead of the method\'s error')],
     'C05': [('C04', 'R04.', 'R05.8', 'a reply is decoded only through the classification in receive_reply: a second decode path, or a changed attempt order, makes legal '
              'success / error replies undecodable or misread, whatever the member order')],
-    'C08': [('C01', 'R01.', 'R08.9', 'a call the server cannot frame exactly is answered zero or two times, or the next call is answered with its reply'),
+    'C08': [('C19', {'R19.10'}, 'R08.14', 'a client whose connection was accepted by the kernel and then dropped inside a cancelled accept future is hung up on: its calls are never answered'),
+            ('C01', 'R01.', 'R08.9', 'a call the server cannot frame exactly is answered zero or two times, or the next call is answered with its reply'),
             ('C02', 'R02.', 'R08.10', 'a reply that is not one document plus one NUL (or stays queued) is not "exactly one reply" for the client'),
-            ('C05', {'R05.1', 'R05.2', 'R05.3'}, 'R08.11', 'the server decides "no reply" from the decoded oneway flag: a flag lost or mixed up in the call envelope makes it answer a oneway call or stay silent on a normal one'),
+            ('C05', {'R05.1', 'R05.2', 'R05.3', 'R05.9'}, 'R08.11', 'the server decides "no reply" from the decoded oneway flag: a flag lost or mixed up in the call envelope makes it answer a oneway call or stay silent on a normal one'),
             ('C09', {'R09.2', 'R09.2b', 'R09.2c'}, 'R08.12', 'every call of a connection is answered only while the connection stays in the server\'s lists: a cleanup that removes another entry than the failing one '
              '(wrong list, wrong index) silences a healthy connection - its later calls get no reply'),
             ('C10', {'R10.1a', 'R10.1b', 'R10.1c', 'R10.2'}, 'R08.13', 'a connection parked with its stream must come back to the call list when the stream ends, and items go to the connection of their own entry: '
@@ -95,7 +103,7 @@ LAYERS = {
     'C09': [('C01', 'R01.', 'R09.7', 'a framing defect on the receive path turns one malformed or fragmented frame into lost or misattributed calls of that and later exchanges'),
             ('C02', 'R02.', 'R09.8', 'the handler awaits the send of every reply: a flush that loops, or leaves bytes queued, stalls the loop for every connection'),
             ('C18', {'R18.2'}, 'R09.9', 'a completed receive that the select drops is a call that is never answered on a healthy connection'),
-            ('C20', {'R20.8'}, 'R09.12', 'a service built on the notified State calls State::set from inside Service::handle, i.e. inside Server::run: a set() that panics when the last subscriber '
+            ('C20', {'R20.8', 'R20.9'}, 'R09.12', 'a service built on the notified State calls State::set from inside Service::handle, i.e. inside Server::run: a set() that panics when the last subscriber '
              'is gone (exactly what a dropped, unwritable subscription leaves behind) takes the server down for every connection'),
             ('C17', {'R17.1', 'R17.2', 'R17.3'}, 'R09.10', 'an oversized frame must end in BufferOverflow for that connection only, not in unbounded growth of the server process')],
     'C10': [('C01', 'R01.', 'R10.6', 'calls pipelined behind a streaming call are in the receive buffer: they are served in order only if framing is exact'),
@@ -111,7 +119,7 @@ LAYERS = {
     'C12': [('C02', 'R02.', 'R12.12', 'every generated method hands its call to enqueue / send_call: one document, one NUL, also for the second call of a chain'),
             ('C04', 'R04.', 'R12.10', 'generated methods map replies "exactly as the low-level receive classifies them"'),
             ('C06', {'R06.1', 'R06.2', 'R06.3', 'R06.4', 'R06.5'}, 'R12.11', 'chain forms and streaming methods are built on Chain / ReplyStream: one item per owed reply up to the final one')],
-    'C18': [('C01', {'R01.2', 'R01.3', 'R01.4', 'R01.6', 'R01.7'}, 'R18.6', 'fairness presupposes that a complete call in the socket is recognised as complete by the receive path: '
+    'C18': [('C01', {'R01.2', 'R01.3', 'R01.4', 'R01.6', 'R01.7', 'R01.9'}, 'R18.6', 'fairness presupposes that a complete call in the socket is recognised as complete by the receive path: '
              'a read loop that keeps reading (or stops early) leaves a waiting client unserved while others are'),
             ('C07', {'R07.1', 'R07.2', 'R07.3'}, 'R18.7', 'the select drops the losers\' receive futures on every turn: without cancel-safety a waiting call is corrupted instead of served next')],
     'C19': [('C07', {'R07.1', 'R07.2', 'R07.3', 'R07.4', 'R07.5'}, 'R19.7', 'a receive abandoned by a timeout / select and restarted later must lose nothing of a large message that arrives in several bursts')],
